@@ -333,7 +333,9 @@ void ezc3d::c3d::point(const std::string &name){
             dummy_frames.push_back(frame);
         point(dummy_frames);
     } else {
-        updateParameters({name});
+        std::string trimmedName(name);
+        ezc3d::removeTrailingSpaces(trimmedName);
+        updateParameters({trimmedName});
     }
 }
 
@@ -374,7 +376,9 @@ void ezc3d::c3d::analog(const std::string &name)
             dummy_frames.push_back(frame);
         analog(dummy_frames);
     } else {
-        updateParameters({}, {name});
+        std::string trimmedName(name);
+        ezc3d::removeTrailingSpaces(trimmedName);
+        updateParameters({}, {trimmedName});
     }
 }
 
